@@ -229,7 +229,14 @@ func TestVerifC16_ProcLive(t *testing.T) {
 			if !expectEffect && before != nil {
 				time.Sleep(20 * time.Millisecond)
 				after, _ = get()
-				if after != nil && (after.Query != before.Query || after.Position != before.Position) {
+				// (nothing matches the sentinel query: -1 and 0 both say that the pointer designates nothing)
+				pos := func(st *Status) int {
+					if st.Position < 0 {
+						return 0
+					}
+					return st.Position
+				}
+				if after != nil && (after.Query != before.Query || pos(after) != pos(before)) {
 					t.Fatalf("a rejected / read-only request changed the state from (%q,%d) to (%q,%d)\nhistory: %v", before.Query, before.Position, after.Query, after.Position, history)
 				}
 			}
